@@ -187,6 +187,10 @@ class Contract:
     def requires(self, ip, a):
         return []
 
+    def axioms(self, ip, a):
+        """definitional facts about uninterpreted spec symbols (assumed in both readings, listed)"""
+        return []
+
     def modifies(self, ip, a):
         return []
 
@@ -208,30 +212,49 @@ class Contract:
         st = ip.st
         a = A(bound)
         st.ghost.setdefault('callee_contracts', set()).add(self.qual)
+        for f in self.axioms(ip, a):
+            st.assume(f)
         for item in self.requires(ip, a):
             name, f = item[0], item[1]
             st.oblige('pre(%s):%s' % (short(self.qual), name), f, tags=item[2] if len(item) > 2 else ())
         old = st.snapshot()
-        specs = self.raises(ip, a, old)
-        labels = ['return'] + ['raise:%s' % s.name for s in specs]
-        choice = st.choose(labels, 'call:' + short(self.qual))
-        k = labels.index(choice) - 1
-        if k >= 0:
-            s = specs[k]
-            if s.when is not None:
-                st.assume(s.when)
-            self.havoc(ip, a, s.modifies if s.modifies is not None else self.modifies(ip, a))
-            for item in s.ensures:
-                st.assume(item[1])
-            raise PyRaise(ExcVal(s.cls, tag='from:' + short(self.qual)))
-        for s in specs:
-            if s.iff and s.when is not None:
-                st.assume(Not(s.when))
-        self.havoc(ip, a, self.modifies(ip, a))
-        res = self.result(ip, a, old)
-        for item in self.ensures(ip, a, old, res):
-            st.assume(item[1])
-        return res
+        saved_reading = getattr(ip, 'reading', 'body')
+        ip.reading = 'call'
+        try:
+            specs = self.raises(ip, a, old)
+            labels = ['return'] + ['raise:%s' % s.name for s in specs]
+            choice = st.choose(labels, 'call:' + short(self.qual))
+            k = labels.index(choice) - 1
+            if k >= 0:
+                s = specs[k]
+                if s.when is not None:
+                    st.assume(s.when)
+                self.havoc(ip, a, s.modifies if s.modifies is not None else self.modifies(ip, a))
+                for item in s.ensures:
+                    self._assume_post(ip, item, 'raises:' + s.name)
+                raise PyRaise(ExcVal(s.cls, tag='from:' + short(self.qual)))
+            for s in specs:
+                if s.iff and s.when is not None:
+                    st.assume(Not(s.when))
+            self.havoc(ip, a, self.modifies(ip, a))
+            res = self.result(ip, a, old)
+            for item in self.ensures(ip, a, old, res):
+                self._assume_post(ip, item, 'ensures')
+            return res
+        finally:
+            ip.reading = saved_reading
+
+    def _assume_post(self, ip, item, what):
+        """a postcondition that is literally False at a call site means the contract's call-site
+        reading (result()) and its ensures() disagree: that is a fault of the contract, never a
+        silently dropped path"""
+        f = item[1]
+        if isinstance(f, bool):
+            f = BoolVal(f)
+        if z3.is_false(simplify(f)):
+            raise Unsupported('contract of %s: %s clause %r is False at a call site (call-site reading inconsistent)'
+                              % (short(self.qual), what, item[0]))
+        ip.st.assume(f)
 
     def havoc(self, ip, a, locs):
         st = ip.st
